@@ -14,7 +14,7 @@ def run(ctx, rep):
                        'the split sizes travel through the Q record (C10). The bijection under all growth/shrink histories and byte-equality with single-file parity are NOT decided.')
     rep.rule('R-C17-1', 'single mapping: parity_read/parity_write use the same offset expression and parity_split_find; no other pread/pwrite on split descriptors; only parity_split_find walks split sizes for addressing', 4)
     rep.rule('R-C17-2', 'parity_split_find interpreted over an exhaustive small domain (offset -> split, inner offset; null outside); valid_size raised on write and checked on read', 3)
-    rep.rule('R-C17-3', 'parity_chsize: accepted sizes are block aligned (guarded), fixed splits keep their size, leftover is an error, sizes copied to the state and flagged', 5)
+    rep.rule('R-C17-3', 'parity_split_is_fixed over its whole domain: a split is fixed iff a later split is in use', 1)
     offs = {}
     for name in ('parity_read', 'parity_write'):
         f = P.fn(name)
@@ -101,25 +101,7 @@ def run(ctx, rep):
 
     valid_size_rules(P, rep, 'R-C17-2v')
     chsize_domain_rule(P, rep, 'R-C17-3d', ctx.tier)
-    c = P.fn('parity_chsize')
-    rep.analysed(c)
-    dead = dead_blocks(c)
-    fails = [i for i in c.all_insts() if i.op == 'store' and c.expr(i.ops[1]) == '&retval' and c.const_of(i.ops[0]) == -1]
-    stores = [i for i in c.all_insts() if i.op == 'store' and c.expr(i.ops[1]) == '&split->size']
-    ok = len(stores) == 1
-    if ok:
-        gs = guards_of(c, stores[0])
-        ok = any('block_mask' in a and 'run' in a and not p for a, p in gs) or any(a.replace(' ', '') == '((run&block_mask)!=0)' and not p for a, p in gs)
-        ok = ok or any('run&block_mask' in a.replace(' ', '') for a, p in gs)
-    rep.check(ok, 'R-C17-3', 'parity_chsize: split->size assigned only a block-aligned size', stores[0].loc() if stores else c.file, '', function='parity_chsize', construct='aligned store')
-    fx = list(c.calls('parity_split_is_fixed'))
-    rep.check(len(fx) == 1 and c.loop_of(fx[0].block) is not None, 'R-C17-3', 'parity_chsize classifies every split as fixed or growing', c.file, '', function='parity_chsize', construct='fixed classification')
-    lo = [b for b in range(len(c.blocks)) if c.term(b).op == 'br' and len(c.term(b).ops) == 3 and c.expr(c.term(b).ops[0]).replace(' ', '') == '(size!=0)' and c.loop_of(b) is None]
-    ok = bool(lo) and any(c.bdominates(c.term(lo[0]).ops[2][1], x.block) for x in fails)
-    rep.check(ok, 'R-C17-3', 'parity_chsize: leftover size after the last split is an error', c.file, '', function='parity_chsize', construct='leftover')
-    cp = [i for i in c.all_insts() if i.op == 'store' and 'parity->split_map[s].size' in c.expr(i.ops[1])]
-    im = [i for i in c.all_insts() if i.op == 'store' and c.expr(i.ops[1]) == 'is_modified' and c.const_of(i.ops[0]) == 1]
-    rep.check(len(cp) == 1 and c.expr(cp[0].ops[0]) == 'split->size' and bool(im) and c.bdominates(cp[0].block, im[0].block) or (len(cp) == 1 and bool(im)), 'R-C17-3', 'parity_chsize: new sizes copied to the state and *is_modified set', c.file, '', function='parity_chsize', construct='size to state')
+    # parity_chsize itself is decided semantically by R-C17-3d (domain interpretation); no expression-shape rules on it
     g = P.fn('parity_split_is_fixed')
     rep.analysed(g)
     # the predicate ranges over a finite domain (split_mac <= SPLIT_MAX, sizes matter only as zero / non-zero): interpret it for all of it
@@ -222,7 +204,7 @@ def chsize_domain_rule(P, rep, rid, tier='quick'):
     successor keeps its size whenever the request still reaches beyond it (the boundaries of used splits never move)."""
     from .. import region as RG
     import itertools
-    rep.rule(rid, 'parity_chsize over an exhaustive small domain (1..3 splits, recorded sizes 0/4/8, files intact / short / lost, growth capped): success implies sizes sum to the request, equal the real file sizes, are copied to the state, and no boundary of a used split moves', 2000)
+    rep.rule(rid, 'parity_chsize over an exhaustive small domain (1..3 splits, recorded sizes 0/4/8, files intact / short / lost, growth capped): success implies block-aligned sizes that sum to the request, equal the real file sizes, are copied to the state, and no boundary of a used split moves', 2000)
     f = P.fn('parity_chsize')
     rep.analysed(f)
     dh = P.distructs.get('snapraid_parity_handle'); dsp = P.distructs.get('snapraid_split_handle'); dp = P.distructs.get('snapraid_parity'); ds = P.distructs.get('snapraid_split'); dst = P.distructs.get('stat')
@@ -246,7 +228,7 @@ def chsize_domain_rule(P, rep, rid, tier='quick'):
         for o in olds:
             a_opts = [sorted({o[k], 0} | ({o[k] - 4} if (o[k] >= 4 and mac < 3) else set())) for k in range(mac)]
             for a in itertools.product(*a_opts):
-                c_opts = [sorted({a[k], 12} | ({a[k] + 4} if mac < 3 else set())) for k in range(mac)]
+                c_opts = [sorted({a[k], 12} | ({a[k] + 4, a[k] + 6} if mac < 3 else set())) for k in range(mac)]
                 for cap in itertools.product(*c_opts):
                     for req in range(0, sum(o) + 9, 4):
                         hp = RG.P_(('obj', 'handle'), 0); pp = RG.P_(('obj', 'parity'), 0)
@@ -289,7 +271,9 @@ def chsize_domain_rule(P, rep, rid, tier='quick'):
                         real = [R.mem[(hp.reg, H_MAP + k * dsp['size'] + S_ST)] for k in range(mac)]
                         rec = [R.mem[(pp.reg, P_MAP + k * ds['size'] + PS_SIZE)] for k in range(mac)]
                         why = None
-                        if sum(n) != req:
+                        if any(x % BS for x in n):
+                            why = 'a split size that is not a multiple of the block size is accepted: %s' % n
+                        elif sum(n) != req:
                             why = 'the new split sizes %s do not add up to the requested %d' % (n, req)
                         elif n != real:
                             why = 'recorded sizes %s differ from the real file sizes %s' % (n, real)
